@@ -292,6 +292,18 @@ def roundtrip(obj, version, key, feat, part, case, options):
     import stix2
     texts = {}
     ref_json = None
+    # every option left at its default is the compact form without defaulted optionals; the free function and str() answer like the method
+    part.transitions += 3
+    try:
+        d0 = obj.serialize()
+        d1 = obj.serialize(pretty=False, include_optional_defaults=False)
+        d2 = stix2.serialization.serialize(obj)
+        d3, d4 = str(obj), d0
+        if not (d0 == d1 == d2) or d3 != d4:
+            part.violation("C01/defaults-differ/%s" % feat, "serialize() with its options left at their defaults is not the compact form without defaulted optionals (or str() differs from it)",
+                           dict(case, options="defaults"), d1[:200], (d0 if d0 != d1 else d2 if d2 != d1 else d3)[:200])
+    except Exception:
+        pass        # serialization failures are reported per option set below
     for o in options:
         on = oname(o)
         c = dict(case, options=o)
